@@ -31,6 +31,35 @@
     `stream_stop` on generated histories (real thread under the virtual-time runtime, including frames
     that kill it, frames in flight at subscribe time, stop/start with a backlog, channels enabled at
     connect), and that a stalled stream thread is waited for by `stream_stop` (no second thread).
+    K observes the linearisation on the library's own objects (method wrappers on the existing
+    `_q_stream` and on `ch_is_enabled`, threads told apart by identity, not by name); sessions include
+    bursts of more than 2000 frames (no bound on `_q_stream`: the model's queue is an unbounded list) and
+    a device that streams a newly enabled channel before it acknowledges the request (the code holds
+    the channels lock from the request to the update of `en_now`, so the stream thread's enabled-test
+    waits and sees the new vector: in the op list the `setEnabled` precedes that frame).  Pre-emptive
+    schedules (unsubscribe / subscribe while a frame is being delivered) are judged at the subscriber
+    queues after `stream_unsub` returned.
+
+  BEHAVIOURS OF THE CODE THAT ARE OUTSIDE THE MODEL (observations of the second review, R4-B-LOW;
+  they are properties of /repo as it is, not defects of this verification, and no theorem speaks
+  about them):
+  * ALIASING OF DELIVERED GROUPS.  `_stream_thread` puts THE SAME Python list object
+    (`samples[chan]`) on every subscriber queue of a channel.  The model's queues hold values
+    (`List Nat`), so "queue A and queue B both received the group" is all that is stated.  A
+    subscriber that mutates the list it took from its queue (`group.clear()`, `del group[0]`) changes
+    what another subscriber of the same channel finds in the item it takes later.  The theorems
+    (and the oracle, which reads each queue once at the end) describe what is PUT on the queues, not
+    what remains of it after a consumer has mutated a shared item.
+  * SUBSCRIPTIONS DO NOT SURVIVE A RECONNECT.  `NxscopeHandler.connect()` rebuilds the subscriber
+    lists (`self._sub_q = [[] for _ in range(chmax)]`) whenever the handler was not connected.  A
+    queue obtained from `stream_sub` before `disconnect()`; `connect()` is silently no longer
+    subscribed and receives nothing afterwards (`stream_unsub` of it is a no-op).  Every theorem here
+    is about ONE connection: `Spec.init` / `St.init` start with no queues, and "since the subscription"
+    means a subscription made on the current connection.  Histories with a reconnect are C09's
+    (lifecycle) business; C08's generators never reconnect a handler.
+  * Text samples (CHAR, one atom) that are not valid UTF-8 are delivered with U+FFFD replacements
+    (`decode(errors="replace")`): the model does not contain the replacement text (driver prints
+    `t~<len>`, as for C04), the oracle accepts any `str` for such a sample.
 -/
 import NxsModel.Route
 import NxsModel.Gen.CfgShape
